@@ -41,6 +41,8 @@ CONSTANTS Ids,          \* context ids used by the client (subset of 1..3)
           Profile,      \* "free" | "manybusy"
           AliasDefaults,\* mutant (TLC must reject it): the worker updates ONE dict of defaults for every input, so a per-input
                         \* keyword sticks to all later inputs
+          CutDeletes,   \* mutant (TLC must reject it): a context request whose connection is dropped after the header is taken for
+                        \* a delete of that id
           ShutdownFirst \* mutant (TLC must reject it): the unknown-context branch calls shutdown() before close(): OSError(ENOTCONN)
                         \* out of the accept loop when that client has already been reset
 
@@ -77,6 +79,7 @@ Requests ==
    \cup {[op |-> "busy", id |-> 0, tok |-> 0, w |-> w, x |-> 0, k |-> "-"] : w \in {v \in Workers : wk[v].st = "alive"}}
    \cup {[op |-> "callk", id |-> 0, tok |-> 0, w |-> w, x |-> w + n, k |-> "-"] : w \in {v \in Workers : wk[v].st = "alive"}}
    \cup {[op |-> "rstart", id |-> i, tok |-> 0, w |-> 0, x |-> 0, k |-> Known(i)] : i \in Ids}
+   \cup {[op |-> "cut", id |-> i, tok |-> 0, w |-> 0, x |-> 0, k |-> Known(i)] : i \in Ids}
 Lowest(S) == CHOOSE w \in S : \A v \in S : w <= v
 Idlers == {v \in Workers : wk[v].st = "alive"}
 Scripted ==
@@ -92,11 +95,12 @@ AbstractReply(q) ==
      [] q.op = "call"   -> IF aw[q.w].live THEN Val(CtxTarget(q.x, aw[q.w].tok)) ELSE "dead"
      [] q.op = "callk"  -> IF aw[q.w].live THEN Val(CtxTarget(q.x, OverrideTok)) ELSE "dead"
      [] q.op = "rstart" -> "nostart"
+     [] q.op = "cut"    -> "dropped"
      [] q.op = "busy"   -> "queued"
      [] OTHER           -> "T"
 FirstPhase(q) == CASE q.op = "create" -> "c_unpickle" [] q.op = "delete" -> "d_pop" [] q.op = "start" -> "s_lookup"
                    [] q.op = "call" -> "w_call" [] q.op = "busy" -> "w_busy" [] q.op = "callk" -> "w_callk"
-                   [] q.op = "rstart" -> "r_lookup" [] OTHER -> "w_wait"
+                   [] q.op = "rstart" -> "r_lookup" [] q.op = "cut" -> "x_cut" [] OTHER -> "w_wait"
 Issue == /\ phase = "idle" /\ n < MaxLen /\ srv = "up"
          /\ \E q \in (IF Profile = "manybusy" THEN Scripted ELSE Requests) : req' = q /\ want' = AbstractReply(q) /\ phase' = FirstPhase(q)
          /\ UNCHANGED <<n, rep, cur, table, hp, nh, wk, nw, gen, dict, aw, srv, hist, reps, lives>>
@@ -194,6 +198,15 @@ RLookup ==
    /\ srv' = IF ShutdownFirst /\ table[req.id] = 0 THEN "crashed" ELSE srv
    /\ Reply("nostart", wk)
    /\ UNCHANGED <<req, want, cur, table, hp, nh, wk, nw, gen>>
+\* header (id, False) of a context request, then the connection ends: ConnectionClosedError in the payload recv -> `continue`
+XCut ==
+   /\ phase = "x_cut"
+   /\ LET h == table[req.id]  gone == CutDeletes /\ h # 0 IN
+      /\ table' = IF gone THEN [table EXCEPT ![req.id] = 0] ELSE table
+      /\ hp' = IF gone THEN [hp EXCEPT ![h].st = "dead"] ELSE hp
+      /\ wk' = IF gone THEN EndWorkersOf(h) ELSE wk
+      /\ Reply("dropped", IF gone THEN EndWorkersOf(h) ELSE wk)
+   /\ UNCHANGED <<req, want, cur, nh, nw, gen, srv>>
 WBusy ==               \* the job is queued and the worker enters its blocking call
    /\ phase = "w_busy"
    /\ wk' = [wk EXCEPT ![req.w].st = "busy"]
@@ -211,12 +224,12 @@ Collect == /\ \E h \in 1..nh : /\ hp[h].st = "alive" /\ \A i \in 1..3 : table[i]
                               /\ hp' = [hp EXCEPT ![h].st = "dead"]
            /\ UNCHANGED <<n, phase, req, rep, want, cur, table, nh, wk, nw, gen, dict, aw, srv, hist, reps, lives>>
 
-Next == Issue \/ CreateUnpickle \/ CreateCheck \/ DeletePop \/ DeleteWait \/ DeleteForced \/ StartLookup \/ StartForward \/ WCall \/ WCallK \/ RLookup \/ WBusy \/ WWait \/ Collect
+Next == Issue \/ CreateUnpickle \/ CreateCheck \/ DeletePop \/ DeleteWait \/ DeleteForced \/ StartLookup \/ StartForward \/ WCall \/ WCallK \/ RLookup \/ XCut \/ WBusy \/ WWait \/ Collect
 Spec == Init /\ [][Next]_vars /\ WF_vars(Next)
 
 -----------------------------------------------------------------------------
 Idle == phase = "idle"
-TypeOK == /\ phase \in {"idle", "c_unpickle", "c_check", "d_pop", "d_wait", "s_lookup", "s_forward", "w_call", "w_callk", "r_lookup", "w_busy", "w_wait"}
+TypeOK == /\ phase \in {"idle", "c_unpickle", "c_check", "d_pop", "d_wait", "s_lookup", "s_forward", "w_call", "w_callk", "r_lookup", "x_cut", "w_busy", "w_wait"}
           /\ n \in 0..MaxLen /\ nh \in 0..MaxLen /\ nw \in 0..MaxW /\ srv \in {"up", "crashed"}
           /\ \A i \in 1..3 : table[i] \in 0..nh
 \* refinement: the implementation's table, seen through the helpers' tokens, IS the dictionary
@@ -249,6 +262,7 @@ W_NoUnknownStart == ~(phase = "s_lookup" /\ table[req.id] = 0)
 W_NoUnknownDelete == ~(phase = "d_pop" /\ table[req.id] = 0)
 W_NoDeleteWithWorkers == ~(phase = "d_wait" /\ \E w \in Workers : wk[w].h = cur /\ wk[w].st = "alive")
 W_NoPlainAfterKeyword == ~(phase = "w_call" /\ wk[req.w].st = "alive" /\ \E m \in 1..Len(hist) : hist[m].op = "callk" /\ hist[m].w = req.w)
+W_NoCutKnown == ~(phase = "x_cut" /\ table[req.id] # 0 /\ \E w \in Workers : wk[w].h = table[req.id] /\ wk[w].st = "alive")
 W_NoResetUnknown == ~(phase = "r_lookup" /\ table[req.id] = 0)
 W_NoForcedDelete == ~(phase = "d_wait" /\ Forced(cur))
 W_NoBusyRegular  == ~(phase = "d_wait" /\ ~Forced(cur) /\ BusyOf(cur) # {})
